@@ -97,9 +97,13 @@ fn scenario(s: Scn) {
     let admitted: Arc<Mutex<Vec<bool>>> = Arc::new(Mutex::new(vec![]));
     let mut expected_initial = St::Closed;
     let mut hs = vec![];
+    // entries deliberately left in flight: kept until the scenario ends, then dropped (never leaked: a
+    // leaked entry pins its statistics node for the rest of the process)
+    let kept: Arc<Mutex<Vec<EntryStrongPtr>>> = Arc::new(Mutex::new(vec![]));
     let spawn_requests = |hs: &mut Vec<thread::JoinHandle<()>>, n: usize, complete_err: Option<bool>| {
         for _ in 0..n {
             let admitted = admitted.clone();
+            let kept = kept.clone();
             hs.push(thread::spawn(move || match enter() {
                 Ok(e) => {
                     admitted.lock().unwrap().push(true);
@@ -109,7 +113,7 @@ fn scenario(s: Scn) {
                         }
                         e.exit();
                     } else {
-                        std::mem::forget(e);
+                        kept.lock().unwrap().push(e);
                     }
                 }
                 Err(_) => admitted.lock().unwrap().push(false),
@@ -287,6 +291,7 @@ fn scenario(s: Scn) {
             }
         }
     }
+    kept.lock().unwrap().clear();
     clear_everything();
 }
 
